@@ -176,6 +176,45 @@ def handle (args : List String) : String :=
       let R := separableDM n (fun k => p.get 0 k) a b
       return outC ((List.range dA).flatMap fun i => (List.range dB).flatMap fun j =>
         (List.range dA).flatMap fun i' => (List.range dB).map fun j' => R i j i' j')
+  | ["abkh", n, isym, iskew, fac, tsym, tskew] => Id.run do
+      -- ABkHermitian.forward on integer parameters: exact Gaussian integers
+      let some n := n.toNat? | return "bad-op"
+      let some isym := parseNatList? isym | return "bad-op"
+      let some iskew := parseNatList? iskew | return "bad-op"
+      let some fac := parseIntList? fac | return "bad-op"
+      let some tsym := parseIntList? tsym | return "bad-op"
+      let some tskew := parseIntList? tskew | return "bad-op"
+      if isym.length ≠ n * n || iskew.length ≠ n * n || fac.length ≠ n * n then return "bad-op"
+      if isym.any (· ≥ tsym.length) || iskew.any (· > tskew.length) then return "bad-op"
+      let a := isym.toArray; let b := iskew.toArray; let f := fac.toArray; let ts := tsym.toArray; let tk := tskew.toArray
+      let H := ABk.hermitian (R := GInt) GInt.I (fun r c => a.getD (r * n + c) 0) (fun r c => b.getD (r * n + c) 0)
+        (fun r c => GInt.ofInt (f.getD (r * n + c) 0)) (fun q => GInt.ofInt (ts.getD q 0)) (fun q => GInt.ofInt (tk.getD q 0))
+      return gintListStr ((List.range n).flatMap fun r => (List.range n).map fun c => H r c)
+  | ["abkperm", dimA, dimB, kext, i, j] => Id.run do
+      let some dimA := dimA.toNat? | return "bad-op"
+      let some dimB := dimB.toNat? | return "bad-op"
+      let some kext := kext.toNat? | return "bad-op"
+      let some i := i.toNat? | return "bad-op"
+      let some j := j.toNat? | return "bad-op"
+      if dimA = 0 || dimB = 0 || i ≥ kext || j ≥ kext then return "bad-op"
+      return natListStr ((List.range (dimA * dimB ^ kext)).map (ABk.permIndex dimB kext i j))
+  | ["abk2", d, n, cs, isx, ck, ikx, m] => Id.run do
+      let some d := d.toNat? | return "bad-op"
+      let some n := n.toNat? | return "bad-op"
+      let some cs := parseIntList? cs | return "bad-op"
+      let some isx := parseNatList? isx | return "bad-op"
+      let some ck := parseIntList? ck | return "bad-op"
+      let some ikx := parseNatList? ikx | return "bad-op"
+      let some m := parseIntList? m | return "bad-op"
+      let wS := d * (d + 1) / 2
+      let wK := d * (d - 1) / 2
+      if d = 0 || m.length ≠ d * d || isx.length ≠ n * n || ikx.length ≠ n * n then return "bad-op"
+      if cs.length % wS ≠ 0 || (wK > 0 && ck.length % wK ≠ 0) then return "bad-op"
+      if isx.any (fun q => (q + 1) * wS > cs.length) || ikx.any (fun q => (q + 1) * wK > ck.length) then return "bad-op"
+      let csA := cs.toArray; let ckA := ck.toArray; let isA := isx.toArray; let ikA := ikx.toArray; let mA := m.toArray
+      let H := ABk.twoLocal (R := GInt) GInt.I d (fun row q => GInt.ofInt (csA.getD (row * wS + q) 0)) (fun r c => isA.getD (r * n + c) 0)
+        (fun row q => GInt.ofInt (ckA.getD (row * wK + q) 0)) (fun r c => ikA.getD (r * n + c) 0) (fun r c => GInt.ofInt (mA.getD (r * d + c) 0))
+      return gintListStr ((List.range n).flatMap fun r => (List.range n).map fun c => H r c)
   | _ => "bad-op"
 
 end Numqi.Driver.C01
